@@ -24,14 +24,16 @@ def main():
     rc, o = sh('git -C /repo worktree add -q --detach %s HEAD' % wt)
     try:
         env = dict(os.environ, PYTHONPATH=wt, MPLBACKEND='Agg')
-        shutil.copy(demo, os.path.join(wt, 'demo.py'))
-        rc0, o0 = sh('/venv/bin/python demo.py', cwd=wt, env=env, timeout=300)
+        # the demonstration may come with helper modules: copy the author's whole seeded/ directory
+        shutil.copytree(src, os.path.join(wt, 'seeded'), ignore=shutil.ignore_patterns('__pycache__', '*.diff'))
+        shutil.copy(demo, os.path.join(wt, 'seeded', 'demo.py'))
+        rc0, o0 = sh('/venv/bin/python seeded/demo.py', cwd=wt, env=env, timeout=300)
         meta['demo_without_change'] = rc0
         rc, o = sh('git apply --whitespace=nowarn %s' % diff, cwd=wt)
         if rc:
             meta['error'] = 'diff does not apply: ' + o[-300:]
             print(json.dumps(meta, indent=1)); return 1
-        rc1, o1 = sh('/venv/bin/python demo.py', cwd=wt, env=env, timeout=300)
+        rc1, o1 = sh('/venv/bin/python seeded/demo.py', cwd=wt, env=env, timeout=300)
         meta['demo_with_change'] = rc1
         meta['demo_output_with_change'] = o1[-400:]
         rct, ot = sh('/venv/bin/python -m pytest -q -p no:cacheprovider --timeout=900 test/unit 2>&1 | tail -3', cwd=wt, env=env)
@@ -53,6 +55,10 @@ def main():
         meta['caught_by'] = [k for k, v in results.items() if v['exit'] == 1]
         os.makedirs(out, exist_ok=True)
         shutil.copy(diff, os.path.join(out, 'patch.diff')); shutil.copy(demo, os.path.join(out, 'demo.py'))
+        for f in os.listdir(src):
+            if f.endswith('.py') and not f.startswith('demo_'):
+                os.makedirs(os.path.join(out, 'support'), exist_ok=True)
+                shutil.copy(os.path.join(src, f), os.path.join(out, 'support', f))
         notes = os.path.join(src, 'NOTES.md')
         if os.path.exists(notes):
             shutil.copy(notes, os.path.join(out, 'NOTES-from-author.md'))
